@@ -56,7 +56,7 @@ REQUIRED_FEATURES = {
             "doc-example": 8, "junk-version": 20, "unrelated-branch": 100, "suffix-without-patch-branch": 20, "minor0-branch": 100, "master-absent": 100,
             "git:local-only": 8, "git:fresh-clone": 8, "git:clone-fetch": 8, "git:clone-offline": 8,
             "git-target:prior-minor": 4, "git-target:prior-minor-0": 4, "git-target:exact": 4, "git-target:major": 4, "git-target:master": 4,
-            "git-target:tag": 4, "git-target:error": 4, "git-target:local-fallback": 2, "git:switched-branch": 8, "git:already-on-branch": 1,
+            "git-target:tag": 4, "git-target:error": 4, "git-target:local-fallback": 2, "git:switched-branch": 8, "git:already-on-branch": 1, "git:namespaced-decoy-branch": 16,
         },
     ),
 }
@@ -529,6 +529,21 @@ def gen_git_case(rng, scenario, target):
             version = rng.choice(UNKNOWN_VERSIONS)
         if parse_version(version) is None and version not in UNKNOWN_VERSIONS:
             continue
+        # unrelated branches in a namespace whose LAST path segment is a branch name that would outrank the right answer
+        # ("backport/8.3", "users/alice/9"): the whole name is the branch, so they must never influence the choice
+        ver = parse_version(version)
+        decoys = []
+        if ver and rng.random() < 0.5:
+            M, mi, p, _ = ver
+            names = set(remote) | set(local_only)
+            for last in rng.sample([f"{M}.{mi}.{p}", f"{M}.{mi}", f"{M}", f"{M + 1}"], rng.randint(1, 2)):
+                if last not in names:
+                    decoys.append(f"{rng.choice(['backport', 'users/alice', 'feature'])}/{last}")
+            decoys = [d for d in dict.fromkeys(decoys) if d not in names]
+            if has_remote and (target != "local-fallback" or rng.random() < 0.5):
+                remote = remote + decoys
+            else:
+                local_only = local_only + decoys
         start = rng.choice(remote if has_remote else local_only)
         later_remote, dropped_remote = [], []
         if scenario in ("clone-fetch", "clone-offline") and len(remote) > 1:
@@ -552,7 +567,7 @@ def gen_git_case(rng, scenario, target):
                 tags.append(t)
         case = {
             "kind": "git", "scenario": scenario, "remote": remote, "later_remote": later_remote, "dropped_remote": dropped_remote,
-            "local_only": local_only, "tags": tags, "start": start, "version": version,
+            "local_only": local_only, "tags": tags, "start": start, "version": version, "decoys": decoys,
         }
         exp_local, exp_remote = model_refs(case)
         allowed, why = git_reference(exp_remote, exp_local, model_tags(case), version, has_remote)
@@ -676,6 +691,8 @@ def git_case(ctx, case, root):
         if want_marker is not None and marker != want_marker:
             problems.append(("git-worktree-matches-head", f"HEAD is {outcome} but the working tree holds the files of {marker!r}"))
     feats = {f"git:{case['scenario']}", f"git-target:{case.get('target', 'any')}"}
+    if case.get("decoys"):
+        feats.add("git:namespaced-decoy-branch")
     if outcome[0] == "branch":
         feats.add("git:switched-branch" if outcome[1] != before_branch else "git:already-on-branch")
     return problems, observed, feats
@@ -691,7 +708,7 @@ def run_git_case(ctx, case, idx):
         return []
     finally:
         shutil.rmtree(root, ignore_errors=True)
-    canon = [case[k] for k in ("scenario", "remote", "later_remote", "dropped_remote", "local_only", "tags", "start", "version")]
+    canon = [case.get(k) for k in ("scenario", "remote", "later_remote", "dropped_remote", "local_only", "tags", "start", "version")]
     ctx.case(canon, True, feats)
     ctx.distinct("git scenario x decided-by x outcome", (case["scenario"], observed["decided_by"], observed["outcome"][0]))
     if ctx.shard % 2 == 0:  # odd shards keep their sample slots for best_match cases
